@@ -184,6 +184,14 @@ class Cluster:
             if info is not None:
                 info['got'].append((h, T, p['nsp'], sid, self.clock,
                                     p['id']))
+                # what arrives is what was emitted, on every host (byte
+                # strings included)
+                if info.get('plain_data') is not None:
+                    self.ctx.count('delivered_payloads_compared')
+                    if not R.deep_eq(p['data'][1:], [info['plain_data']]):
+                        self.fail('emit %d was delivered on host %d as %r, '
+                                  'emitted was %r' % (tok, h, p['data'][1:],
+                                                      info['plain_data']))
 
     def hstep(self, h, op):
         """Runner.step on host h; the packets it drained are attributed."""
@@ -461,11 +469,15 @@ class Cluster:
         # them pickle by reference to a class (enum members, ordered dicts,
         # str subclasses)
         data = {'t': tok}
+        info['plain_data'] = copy.deepcopy(data)
         if rng.random() < 0.25:
             data = PM.rich_payload(tok)
+            info['plain_data'] = None
             self.ctx.count('emits_with_class_valued_payload')
-        elif rng.random() < 0.15:
-            data = {'t': tok, 'b': [bytes([tok % 256]), b'\x00\x01']}
+        elif rng.random() < 0.25:
+            data = {'t': tok, 'b': [bytes([tok % 256]), b'\x00\x01'],
+                    'n': {'deep': [b'xyz']}}
+            info['plain_data'] = copy.deepcopy(data)
             self.ctx.count('emits_with_binary_payload')
         # the application's next statement after the emit changes who is in
         # the addressed room (same coroutine, nothing awaited in between): a
@@ -830,6 +842,7 @@ def run(ctx):
     ctx.require('emits_via_write_only', 10)
     ctx.require('identical_emits_repeated', 10)
     ctx.require('emits_with_class_valued_payload', 10)
+    ctx.require('delivered_payloads_compared', 100)
     # fresh hosts whose first connections arrive together (threaded server)
     from checks import c07_init
     ctx.require('fresh_host_cases', 3)
